@@ -63,6 +63,7 @@ type rfGen struct {
 	enter       int64
 	retA        atomic.Int64
 	ctxEpoch    int64
+	ccStart     int64 // w.ccStart at entry
 	relCount    atomic.Int64
 	relStamp    atomic.Int64
 	zeroEpoch   int64
@@ -95,6 +96,7 @@ type rfWorld struct {
 	shared    *rfVal
 	active    atomic.Int64
 	ctxEpoch  atomic.Int64
+	ccStart   atomic.Int64 // SetContext(fresh context) calls started (such a call always replaces the context)
 	// heldCount is a lower bound of the references the library knows (incremented after AddRef returned,
 	// decremented before Release is called); zeroEpoch counts how often it reached zero
 	heldCount atomic.Int64
@@ -153,7 +155,7 @@ func (g *rfGen) HasRel() bool { return g.retA.Load() != 0 && g.relF }
 
 func (w *rfWorld) resolver(ctx context.Context, released func()) (*rfVal, func(), error) {
 	c := w.c
-	gen := &rfGen{ctx: ctx, released: released, ctxEpoch: w.ctxEpoch.Load(), zeroEpoch: w.zeroEpoch.Load(), heldAtEntry: w.heldCount.Load(), gate: make(chan struct{})}
+	gen := &rfGen{ctx: ctx, released: released, ccStart: w.ccStart.Load(), ctxEpoch: w.ctxEpoch.Load(), zeroEpoch: w.zeroEpoch.Load(), heldAtEntry: w.heldCount.Load(), gate: make(chan struct{})}
 	w.mu.Lock()
 	gen.g = len(w.gens) + 1
 	w.gens = append(w.gens, gen)
@@ -331,6 +333,10 @@ func runRefcount(w *mon.Worker, prop string) {
 		for i := 0; i < w.Share(w.Scale(4000, 400000)); i++ {
 			w.Case("access-one-invalidation", nil, rfAccessOneInvalidationCase)
 		}
+	}
+	// a resolver may legitimately resolve to the zero value of T: every consumer has to treat it as a value
+	for i := 0; i < w.Share(w.Scale(1600, 160000)); i++ {
+		w.Case("zero-value", nil, func(c *mon.Case) { rfZeroValueCase(c, prop) })
 	}
 	mon.ClearProb()
 	if prop == "C09" {
@@ -571,6 +577,7 @@ func refcountCase(c *mon.Case, prop string, idx int) {
 					c.Count("setcontext_done_context_calls", 1)
 				}
 				c.Rec("ctx", fmt.Sprint("SetContext new#", tag, " done=", done), nil)
+				w.ccStart.Add(1)
 				w.rc.SetContext(ctx)
 				ctxLive, ctxCleared, ctxRootCancelled = !done, false, done
 				curRoot = cx.cancel
@@ -704,6 +711,23 @@ func refcountCase(c *mon.Case, prop string, idx int) {
 	waitBudget := 300 + r.IntN(500)
 	for k := 0; k < waitBudget; k++ {
 		runtime.Gosched()
+	}
+	// before any gate is opened: a resolver call that is still running although the context was replaced after it
+	// entered, or although its own released() was called, has been superseded - the context it was given must be cancelled
+	// (otherwise a resolver that honours its context never makes room for the fresh resolution)
+	if mon.Quiesce(10 * time.Second) {
+		c.Count("stale_resolver_context_judgements", 1)
+		for _, g := range w.genList() {
+			if g.Ret() != 0 || g.ctx.Err() != nil {
+				continue
+			}
+			switch {
+			case w.ccStart.Load() > g.ccStart:
+				c.Violate("resolver", "refcount-superseded-resolver-context-live", "resolver call g%d is still running with a live context at quiescence although SetContext replaced the container's context after the call had entered", g.g)
+			case g.invalid.Load() != 0:
+				c.Violate("resolver", "refcount-superseded-resolver-context-live", "resolver call g%d is still running with a live context at quiescence although its released() callback was called (at %d)", g.g, g.invalid.Load())
+			}
+		}
 	}
 	// open gates of resolvers that ignore their context, one by one, then stop
 	for _, g := range w.genList() {
@@ -1306,4 +1330,173 @@ func rfAccessOneInvalidationCase(c *mon.Case) {
 	w.rc.ClearContext()
 	mon.Quiesce(5 * time.Second)
 	_ = accessErr
+}
+
+// rfZeroValueCase: RefCount[int] whose resolver resolves to 0 (the zero value of T) with a release function.
+// The result has to be delivered like any other: callbacks told (true, 0, nil), Wait/Resolve return (0, nil),
+// Access invokes its callback with 0 and re-invokes it after an invalidation; the release function runs exactly once per result.
+func rfZeroValueCase(c *mon.Case, prop string) {
+	r := c.Rng
+	variant := r.IntN(4)
+	invalidate := r.IntN(2) == 0
+	secondVal := 0
+	if r.IntN(2) == 0 {
+		secondVal = 7
+	}
+	var mu sync.Mutex
+	var calls int
+	var rels [3]atomic.Int64
+	var releasedFns []func()
+	resolver := func(ctx context.Context, released func()) (int, func(), error) {
+		mu.Lock()
+		n := calls
+		calls++
+		releasedFns = append(releasedFns, released)
+		mu.Unlock()
+		c.Rec("resolver", fmt.Sprint("call ", n), nil)
+		if n >= 2 {
+			<-ctx.Done()
+			return 0, nil, context.Canceled
+		}
+		v := 0
+		if n == 1 {
+			v = secondVal
+		}
+		return v, func() { rels[n].Add(1) }, nil
+	}
+	keep := r.IntN(3) == 0
+	rc := refcount.NewRefCount[int](nil, keep, nil, nil, resolver)
+	ctx, cancel := context.WithCancel(context.Background())
+	defer cancel()
+	rc.SetContext(ctx)
+	var got []int
+	var gmu sync.Mutex
+	var done atomic.Bool
+	var resErr error
+	var rel func()
+	inCb := make(chan struct{}, 4)
+	c.Go("consumer", func() {
+		switch variant {
+		case 0:
+			resErr = rc.Access(ctx, func(cctx context.Context, v int) error {
+				gmu.Lock()
+				got = append(got, v)
+				n := len(got)
+				gmu.Unlock()
+				c.Rec("consumer", fmt.Sprint("callback with ", v), nil)
+				inCb <- struct{}{}
+				if invalidate && n == 1 {
+					<-cctx.Done() // the driver invalidates the value now; the callback context must be cancelled
+				}
+				return nil
+			})
+		case 1:
+			var v int
+			var ref *refcount.Ref[int]
+			v, ref, resErr = rc.Wait(ctx)
+			if resErr == nil {
+				gmu.Lock()
+				got = append(got, v)
+				gmu.Unlock()
+				rel = ref.Release
+			}
+		case 2:
+			var v int
+			v, rel, resErr = rc.ResolveWithReleased(ctx, func() {})
+			if resErr == nil {
+				gmu.Lock()
+				got = append(got, v)
+				gmu.Unlock()
+			}
+		default:
+			ref := rc.AddRef(func(resolved bool, v int, err error) {
+				if resolved && err == nil {
+					gmu.Lock()
+					got = append(got, v)
+					gmu.Unlock()
+				}
+			})
+			rel = ref.Release
+		}
+		done.Store(true)
+	})
+	c.Count("zero_value_cases", 1)
+	c.NonTrivial()
+	c.Mix(uint64(variant)<<8 | uint64(secondVal)<<2 | uint64(map[bool]int{true: 1}[invalidate])<<1 | uint64(map[bool]int{true: 1}[keep]))
+	if !mon.Quiesce(5 * time.Second) {
+		c.Inconclusive("no quiescence")
+		return
+	}
+	names := []string{"Access", "Wait", "ResolveWithReleased", "AddRef callback"}
+	gmu.Lock()
+	n0 := len(got)
+	gmu.Unlock()
+	if n0 == 0 {
+		if mon.QuiesceConfirmed(100*time.Millisecond, 5*time.Second) {
+			gmu.Lock()
+			n0 = len(got)
+			gmu.Unlock()
+			if n0 == 0 {
+				c.Violate("release", "refcount-zero-value-not-delivered", "the resolver resolved to the zero value (0, release func, nil) but %s has not seen a value in a quiescent process (returned=%v)", names[variant], done.Load())
+				return
+			}
+		}
+	}
+	gmu.Lock()
+	first := got[0]
+	gmu.Unlock()
+	if first != 0 {
+		c.Violate("release", "refcount-zero-value-not-delivered", "%s saw %d, the resolver resolved to 0", names[variant], first)
+	}
+	if variant == 0 && invalidate {
+		// the callback is parked on its context: invalidate the value
+		mu.Lock()
+		f := releasedFns[0]
+		mu.Unlock()
+		c.Rec("d", "released() for the zero value", nil)
+		f()
+		if !mon.Quiesce(5 * time.Second) {
+			c.Inconclusive("no quiescence after the invalidation")
+			return
+		}
+		if !done.Load() && mon.QuiesceConfirmed(100*time.Millisecond, 5*time.Second) && !done.Load() {
+			gmu.Lock()
+			ng := len(got)
+			gmu.Unlock()
+			c.Violate("access", "refcount-access-not-reinvoked", "the zero value was invalidated during the Access callback and re-resolved to %d; at quiescence Access has not returned (callback invocations so far: %d)", secondVal, ng)
+			return
+		}
+		gmu.Lock()
+		ok := len(got) == 2 && got[1] == secondVal
+		g2 := append([]int(nil), got...)
+		gmu.Unlock()
+		if done.Load() && !ok {
+			c.Violate("access", "refcount-access-not-reinvoked", "after the invalidation of the zero value Access returned %v with callback invocations %v, want [0 %d]", resErr, g2, secondVal)
+		}
+		if rels[0].Load() != 1 {
+			c.Violate("release", "refcount-release-count-final", "the release function of the invalidated zero value has run %d times at quiescence, want once", rels[0].Load())
+		}
+	}
+	if variant != 0 || !invalidate {
+		if variant < 3 && (!done.Load() || resErr != nil) {
+			c.Violate("release", "refcount-zero-value-not-delivered", "%s: returned=%v err=%v after the resolver resolved to 0", names[variant], done.Load(), resErr)
+		}
+	}
+	if rel != nil {
+		rel()
+	}
+	rc.ClearContext()
+	if !mon.Quiesce(5 * time.Second) {
+		c.Inconclusive("no quiescence at the end")
+		return
+	}
+	mu.Lock()
+	nc := calls
+	mu.Unlock()
+	for i := 0; i < nc && i < 2; i++ {
+		if k := rels[i].Load(); k != 1 {
+			c.Violate("release", "refcount-release-count-final", "after releasing every reference and clearing the context the release function of result %d (zero-value case) has run %d times, want exactly once", i, k)
+		}
+	}
+	_ = prop
 }
